@@ -42,6 +42,14 @@ if "C06" in REGISTRY:
                                             "length predicate coincides with the Specification's length set (C06.length_set_is_layout_spec).")
     REGISTRY["C06"] = _e
 
+if "C08" in REGISTRY:
+    _e = dict(REGISTRY["C08"])
+    _e["module"] = ([_e["module"]] if isinstance(_e["module"], str) else list(_e["module"])) + ["Props.C08Wire"]
+    _e["level_text"] = _e["level_text"] + (" Joint theorems with the wire model (Props/C08Wire.lean): the position at which the encoder writes each field of a (sealed or "
+                                            "delimited) structure, and the selected variant of a union, belongs to the offset set handed out for it, for every valid value and origin.")
+    _e["partial"] = list(_e.get("partial", [])) + ["exactness in the reverse direction (every element of an offset set is realised by some value) is not proved; it is observed through the wire and layout correspondences"]
+    REGISTRY["C08"] = _e
+
 # Only properties listed in harness/enabled.txt are claimed (groups still under construction stay out of MANIFEST.json).
 _enabled = {l.strip() for l in (Path(__file__).resolve().parent / "enabled.txt").read_text().split() if l.strip()}
 PENDING = {k: v for k, v in REGISTRY.items() if k not in _enabled}
